@@ -24,7 +24,7 @@ def small_int(rng):
     return rng.choice([0, 1, 2, 3, 4, 5, 7, 10, 15, 16, 100, 255])
 
 
-B64 = ["AA==", "QQ==", "aGVsbG8=", "aGVsbG8", "/+8=", "AQID"]
+B64 = ["AA==", "QQ==", "aGVsbG8=", "aGVsbG8", "/+8=", "AQID", "//8=", "AB//", "//", "a//b"]
 B32 = ["AA", "ME======", "MFRGG===", "MFRGG", "74======"]
 BYTES_FORMS = ['0x', "0x00", "0xdeadBEEF", '"str"', '"a b // c"', '"q\\"x"'] + [f"base64 {x}" for x in B64] + [f"b64 {x}" for x in B64] + [f"base64({x})" for x in B64] + [f"b64({x})" for x in B64] + [f"base32 {x}" for x in B32] + [f"b32 {x}" for x in B32] + [f"base32({x})" for x in B32] + [f"b32({x})" for x in B32]
 
